@@ -228,6 +228,9 @@ func parseOne(op vm.Opcode, instruction *Instruction, w io.Writer) (int, error) 
 
 	n, err = writeSym(b, *a.Sym)
 	n_buf += n
+	if err != nil {
+		return n_out, err
+	}
 	return flush(b, w)
 }
 
